@@ -273,9 +273,10 @@ func (v *valuesVisitor) valueSatisfiesListType(value ast.Value, definitionTypeRe
 	for _, i := range v.operation.ListValues[value.Ref].Refs {
 		listValue := v.operation.Value(i)
 		itemType := listItemType
-		if listValue.Kind != ast.ValueKindNull && v.definition.Types[itemType].TypeKind == ast.TypeKindNonNull {
-			// a non-null item is checked against the nullable item type; a null literal keeps the
-			// Non-Null type and is reported ("[null]" is not a value of [T!])
+		if listValue.Kind != ast.ValueKindNull && listValue.Kind != ast.ValueKindVariable && v.definition.Types[itemType].TypeKind == ast.TypeKindNonNull {
+			// a non-null literal item is checked against the nullable item type; a null literal and a variable
+			// keep the Non-Null type: "[null]" is not a value of [T!] and a nullable variable is not allowed
+			// as an item of it (spec 5.8.5)
 			itemType = v.definition.Types[itemType].OfType
 		}
 		if !v.valueSatisfiesInputValueDefinitionType(listValue, itemType) {
